@@ -25,7 +25,7 @@ import (
 // MkMsg builds a verif.v1.Msg from protojson text.
 func MkMsg(js string) proto.Message {
 	m := wire.NewMessage(world.MsgDesc())
-	if err := protojson.Unmarshal([]byte(js), m); err != nil {
+	if err := (protojson.UnmarshalOptions{Resolver: wire.Resolver()}).Unmarshal([]byte(js), m); err != nil {
 		panic(fmt.Sprintf("MkMsg(%s): %v", js, err))
 	}
 	return m
@@ -34,7 +34,7 @@ func MkMsg(js string) proto.Message {
 // MkMsgOf builds a message of the given descriptor from protojson text.
 func MkMsgOf(desc protoreflect.MessageDescriptor, js string) proto.Message {
 	m := wire.NewMessage(desc)
-	if err := protojson.Unmarshal([]byte(js), m); err != nil {
+	if err := (protojson.UnmarshalOptions{Resolver: wire.Resolver()}).Unmarshal([]byte(js), m); err != nil {
 		panic(fmt.Sprintf("MkMsgOf(%s): %v", js, err))
 	}
 	return m
@@ -285,7 +285,7 @@ func canonMsg(codec string, desc protoreflect.MessageDescriptor, payload []byte)
 	if err != nil {
 		return fmt.Sprintf("undecodable(%s):%x", codec, payload)
 	}
-	b, err := protojson.MarshalOptions{}.Marshal(m)
+	b, err := protojson.MarshalOptions{Resolver: wire.Resolver()}.Marshal(m)
 	if err != nil {
 		return fmt.Sprintf("unmarshalable:%x", payload)
 	}
